@@ -27,7 +27,7 @@ CONSTANTS
     ObjClasses,     \* subset of {"Points", "Curve", "Surface", "Grid2D"}
     Prims,          \* subset of {"float", "floatcmap", "int", "ref", "text"}
     ShareTypes,     \* TRUE: a new data may re-use the data type of an earlier data of the same primitive
-    Deviations      \* {} = ideal reader ; {"RebuildRootFlatOrder"} = workspace.py:564-584 as built
+    Deviations      \* {} = ideal reader ; {"RebuildRootFlatOrder"} = Workspace.fetch_or_create_root as built
 
 VARIABLES file, stage, phase, item, outcome
 vars == <<file, stage, phase, item, outcome>>
@@ -176,8 +176,9 @@ NonDefault(f, e) ==
              "U Count", "U Size", "V Count", "V Size"}
       [] OTHER -> {"Allow delete", "Allow move", "Allow rename", "Name", "Public", "Visible"}
 
-\* Workspace.fetch_or_create_root, rebuild branch (workspace.py:576-584): every uid of /Groups is loaded in
-\* link-name order with parent = the new root unless it was already loaded through a group met earlier.
+\* Workspace.fetch_or_create_root, rebuild branch (workspace.py:564-584 of the snapshot, 569-589 at HEAD): every
+\* uid of /Groups (H5Reader.fetch_uuids, h5_reader.py:397-416, link-name order) is loaded by load_entity in that
+\* order with parent = the new root unless it was already loaded through a group met earlier.
 \* A nested group whose uid sorts before the uids of all its ancestors (the old root included) is therefore
 \* loaded flat and stays a child of the new root: named deviation "RebuildRootFlatOrder".
 Reparented(f) ==
@@ -190,7 +191,7 @@ Fails(f, i) ==
     \/ i.k = "flat" /\ i.a = "Objects" /\ ObjectNodes(f) # {}      \* h5file[name]["Objects"] KeyError (h5_reader.py:66)
     \/ i.k = "flat" /\ i.a = "Data" /\ DataNodes(f) # {}
     \/ i.k = "tattr" /\ i.a = "ID" /\ f.types[i.n].tk \in {"group", "object"} /\ i.n # 1
-          \* the class is looked up by the type uid (workspace.py:515-549); RootGroup falls back to its default
+          \* the class is looked up by the type uid (Workspace.create_object_or_group); RootGroup falls back to its default
     \/ i.k = "eattr" /\ i.a = "Name" /\ ClsOf(f, i.n) = "Grid2D"
           \* ObjectBase.__init__ appends a default name AFTER on_file=True: the setter writes, mode "r" refuses
 \* entities that are not reached any more (absent together with their subtrees)
